@@ -47,11 +47,13 @@ def builder_overrides(log):
     def m_pkg_import_name(ctx):
         p = ctx.deref(ctx.args[0]); return ctx.ret(p.kid('!unlocked-dep-name', 'std::string::String'))
     def m_into_kind(ctx): return ctx.ret(Agg((ctx.deref(ctx.args[0]),), 'ComponentExportKind'))
+    def m_pkg_name(ctx):
+        p = ctx.deref(ctx.args[0]); return ctx.ret(p.kid('!name', 'std::string::String'))      # two packages may share a name (versions)
     def m_id(ctx): return ctx.ret(ctx.args[0])
     return [(r'^(?:encoding::)?State::builder$', m_builder), (r'ComponentBuilder::component_raw$', m_component_raw), (r'ComponentBuilder::import$', m_import),
             (r'ComponentBuilder::instantiate::<.*>$', m_instantiate), (r'ComponentBuilder::alias$', m_alias), (r'ComponentBuilder::export$', m_export),
             (r'^(?:encoding::)?TypeEncoder::<.*>::new$', m_encoder_new), (r'^(?:encoding::)?TypeEncoder::<.*>::component$', m_encoder_component),
-            (r'^(?:wac_types::)?Package::bytes$', m_pkg_bytes), (r'package_import_name$', m_pkg_import_name),
+            (r'^(?:wac_types::)?Package::bytes$', m_pkg_bytes), (r'^(?:wac_types::)?Package::name$', m_pkg_name), (r'package_import_name$', m_pkg_import_name),
             (r'^<(?:wac_types::)?ItemKind as Into<ComponentExportKind>>::into$', m_into_kind),
             (r'^<std::string::String as Into<Cow<.*>>>::into$|^<&str as Into<Cow<.*>>>::into$', m_id)]
 
